@@ -8,6 +8,6 @@ CONSTANTS
   Pipes = {1}
   MayLeave = {"a2"}
   Verify = TRUE
-INVARIANT TypeOK
-PROPERTY Converges
+INVARIANT Inv
+PROPERTY Converges Monotone
 CHECK_DEADLOCK FALSE
